@@ -782,3 +782,14 @@ O(id="C06.pong_payload_copy", props=["C06", "C12"], entry="harness_pong", reach=
   symbolic="pong payload length 0..125 (exact-size heap object)", assumes=[], bounds="control frame payload <= 125 bytes (the frame rules refuse longer ones: C12.frame_rules)", **_wsp)
 O(id="C12.text_to_dispatcher", props=["C12", "C09"], entry="harness_text", functions=["text_message_callback"],
   symbolic="message length 0..4, dispatcher verdict", assumes=[], bounds="none", **_wsp)
+
+O(id="C02.batch_garbage_member", props=["C02", "C11", "C06"], entry="harness_batch_garbage", functions=["parse_message", "parse_json_array", "parse_json_rpc"],
+  symbolic="state value", assumes=[], bounds="batch of 3: add, a number, remove", **_scn_rpc)
+O(id="C07.shutdown", props=["C07", "C05"], entry="harness_shutdown", functions=["destroy_all_peers", "free_peer_resources"] + _RF,
+  symbolic="set value", assumes=["set-up succeeds"], bounds="3 peers: owner of a state, a subscriber, a caller with a request in flight; then destroy_all_peers()", **_scn_route)
+
+for _af, _nm in ((0, "fetch_then_add"), (1, "add_then_fetch")):
+    O(id="C01.table_growth_" + _nm, props=["C01"], entry="harness_table_growth", defines=["ADD_FIRST=1"] if _af else [],
+      functions=["add_fetch_to_state", "find_fetchers_for_element", "add_fetch_to_states", "notify_fetchers"],
+      symbolic="new state value", assumes=["set-up steps succeed"],
+      bounds="4 subscriptions (3 peers, one with two fetches) on one element, initial subscription table size 2 (%s)" % _nm, **_scn_fetch)
